@@ -324,6 +324,11 @@ fn handle_eval_up_to_request(
         }
     };
 
+    // The type checker looks up variables in the namespace of this
+    // file, which does not exist yet if nothing from the file has
+    // been loaded.
+    env.get_or_create_namespace(&path);
+
     let vfs_path = env.vfs.insert(Rc::new(path.clone()), src.to_owned());
     let (items, mut errors) = parse_toplevel_items(&vfs_path, src, &mut env.id_gen);
 
